@@ -13,6 +13,7 @@ from slimta.envelope import Envelope
 from slimta.smtp.reply import Reply
 
 from engine.vloop import World
+from engine.core import Horizon
 from fakes.vsock import Net, VContext
 from fakes.downstream import ScriptedPeer
 
@@ -42,7 +43,7 @@ class SmtpRelayWorld(object):
             raise _socket.error(111, 'Connection refused')
         if how == 'stall':
             gevent.event.Event().wait()
-        client, server = self.net.pair(peername=address)
+        client, server = self.net.pair(peername=address, chunked=bool(self.cfg.get('unsolicited_partial')))
         k = len(self.peers)
         scripts = self.cfg.get('scripts') or [self.cfg.get('script', {})]
         script = scripts[min(k, len(scripts) - 1)]
@@ -51,6 +52,11 @@ class SmtpRelayWorld(object):
                             pipelining=self.cfg.get('pipelining', True), auth=bool(self.cfg.get('auth')),
                             tls_immediately=(self.cfg.get('tls') == 'immediate'))
         self.peers.append(peer)
+        if self.cfg.get('unsolicited_partial'):
+            peer.push_after_ehlo = self.cfg['unsolicited_partial']
+            fd = 1000 + len(self.peers)
+            client.fileno = lambda fd=fd: fd
+            self.socks[fd] = client
         g = gevent.spawn(peer.run)
         peer.greenlet = g
         return client
@@ -93,6 +99,16 @@ class SmtpRelayWorld(object):
         with World(self.ch, max_steps=cfg.get('max_steps', 2000), horizon=horizon) as w:
             self.world = w
             self.net = Net(w)
+            self.socks = {}
+            if cfg.get('unsolicited_partial'):
+                import slimta.smtp.client as sclient
+
+                def wait_read(fd, timeout=None, timeout_exc=None):
+                    s_ = self.socks.get(fd)
+                    if s_ is not None and s_.readable():
+                        return
+                    raise timeout_exc
+                w.patch(sclient, 'wait_read', wait_read)
             relay = self.build_relay()
             self.relay = relay
             n = cfg.get('n', 2)
@@ -106,7 +122,11 @@ class SmtpRelayWorld(object):
             else:
                 for e in envs:
                     self.attempt(relay, e)
-            w.run_until_quiescent()
+            self.horizon_hit = False
+            try:
+                w.run_until_quiescent()
+            except Horizon:
+                self.horizon_hit = True      # still busy after thousands of loop events: never settles
             self.errors = w.errors()
             self.end_time = w.now
         return self
